@@ -1,0 +1,5 @@
+//go:build !verif
+
+package hash
+
+func verifWrite(domain string, data []byte) {}
